@@ -34,7 +34,29 @@ type sigRun struct {
 func sigOf(buf []byte, hcap int, cuts []int) (r sigRun) {
 	o := newMsg(Cfg{HdrCap: hcap, ContactCap: -1, MsgFlags: sipsp.SIPMsgSkipBodyF}).(*msgObj)
 	var pan string
-	r.n, r.pe, _, pan = drive(o, buf, 0, cuts)
+	if len(cuts) > 1 {
+		// the signature (and the accessors) may be asked for while the parse is suspended: whatever
+		// comes back then must not influence the signature of the finished message
+		offs := 0
+		r.pe = sipsp.ErrHdrMoreBytes
+		for _, c := range cuts {
+			pre := isoCopy(buf[:c])
+			r.n, r.pe, pan, _ = safeCall(o, pre, offs)
+			if pan != "" || r.pe != sipsp.ErrHdrMoreBytes {
+				break
+			}
+			offs = r.n
+			func() {
+				defer func() { recover() }()
+				// (the fields parsed so far refer to the bytes delivered so far)
+				o.m.Buf = pre
+				sipsp.GetMsgSig(&o.m)
+				_, _, _ = o.m.Method(), o.m.Request(), o.m.Parsed()
+			}()
+		}
+	} else {
+		r.n, r.pe, _, pan = drive(o, buf, 0, cuts)
+	}
 	if pan != "" {
 		r.pan = pan
 		return
